@@ -183,6 +183,35 @@ def run(tier, seed):
                 if "ok" in read_impl(ps, enc[:cut]):
                     run.fail({"schema": c["schema"], "prefix": enc[:cut].hex(), "full": enc.hex()},
                              "proper prefix of a schemaless encoding decoded", kind="oracle")
+    # ... and of a value that is skipped during schema resolution (a reader schema that drops the trailing field)
+    for (c, data, parsed, nfs) in files[:scale(tier, 30)]:
+        s0 = c["schema"]
+        wrec = {"type": "record", "name": "CutWrap__", "fields": [{"name": "z", "type": "long"}, {"name": "a", "type": s0}]}
+        rrec = {"type": "record", "name": "CutWrap__", "fields": [{"name": "z", "type": "long"}]}
+        try:
+            pw = fastavro.parse_schema(json.loads(json.dumps(wrec)))
+        except Exception:
+            continue
+        for r in c["records"][:2]:
+            b = io.BytesIO()
+            try:
+                fastavro.schemaless_writer(b, pw, {"z": 7, "a": r})
+            except Exception:
+                continue
+            enc = b.getvalue()
+            for cut in range(1, len(enc)):
+                run.cov["evaluations"] += 1
+                for seekable in (True, False):
+                    fo = io.BytesIO(enc[:cut]) if seekable else ReadOnly(enc[:cut])
+                    try:
+                        v = fastavro.schemaless_reader(fo, pw, rrec)
+                    except Exception:
+                        continue
+                    run.fail({"schema": s0, "prefix": enc[:cut].hex(), "full": enc.hex(), "returned": to_wire(v), "seekable_input": seekable,
+                              "tags": ["schemaless-skipped-prefix"]},
+                             "proper prefix of a schemaless encoding decoded (trailing value skipped by the reader schema)", kind="oracle")
+                    break
+    run.tag("schemaless-skipped-prefixes")
     # every primitive in the last-read position of a schemaless encoding
     import gen as _gen
     g = _gen.Gen(seed + 606)
